@@ -282,6 +282,30 @@ def run_case(ctx):
         first.call(ctx, r0)
         ctx.probe("earlier_cooks")
         ctx.reset_pools(keep_pathos_cache=True)
+    if not builtin and src.flag("hist.same_path", 6):
+        # the same cook ran before, in this process, on a twin plotfile living at the same path
+        import copy
+        from ..choice import RandomSource
+        sub = RandomSource(src.draw("hist.seed", 0, 9999))
+        t2 = copy.copy(tool)
+        t2.opts = dict(tool.opts)
+        t2.m = tool.m.copy_meta()
+        world.gen_layout(sub, t2.m, tag="t")
+        world.fill_random(t2.m, sub.draw("t.data", 0, 999999))
+        shutil.rmtree(root)
+        t2.prepare_root(root)
+        try:
+            t2.call(ctx, root)
+        except Exception:
+            pass
+        if src.flag("hist.keep_output"):
+            shutil.rmtree(os.path.join(root, "data"))
+            ctx.probe("history.output_preexisting")
+            both = False        # (stale files of the earlier output would differ between the two trees)
+        else:
+            shutil.rmtree(root)
+        tool.prepare_root(root)
+        ctx.probe("history.same-path")
     o = tool.call(ctx, root)
     if not o.ok and getattr(tool.m, "species_permuted", False):
         # refusing a species block that is not in the mechanism's order is the documented behaviour
